@@ -417,19 +417,21 @@ def oracle(ctx, deep=False, broken=None):
         cand = [x for x in K.all_sizes(cls, lim, n_max=260) if tuple(x) not in sizes and max(x) >= 5
                 and len(set(x)) == len(x)]
         cand.sort(key=lambda x: (K.qubit_count(cls, x), x))
-        step = max(1, len(cand) // 18)
-        for x in cand[::step][:18]:
+        for x in cand:
             cases.append({'class': cls, 'size': list(x), 'deform': [None, {}], 'max_w': 3, 'milp': True,
                           'always': True, 'focus': True, 'max_logicals': 8})
     # MILP budget: spread over the cases that ask for it
     milp_cases = [c for c in cases if c.get('milp')]
     for c in milp_cases:
-        c['time_limit'] = 8.0 if c.get('focus') else 4.0 if deep else 2.5
+        c['time_limit'] = 3.0 if c.get('focus') else 4.0 if deep else 2.5
     fails, errs = [], 0
     t0 = time.time()
     milp_deadline = 420 if ctx.thorough else 150
     for c in sorted(cases, key=lambda c: (K.qubit_count(c['class'], tuple(c['size'])), c['class'])):
-        if c.get('milp') and not c.get('focus') and time.time() - t0 > milp_deadline:
+        if c.get('focus'):
+            if time.time() - t0 > milp_deadline + 360:        # focus cases in order of size until the budget ends
+                continue
+        elif c.get('milp') and time.time() - t0 > milp_deadline:
             c['milp'] = False
         f, err = oracle_case(c, deep)
         if err:
